@@ -41,7 +41,7 @@ vars == <<l, q, pend, led, viol>>
 
 Threads == 0..8
 NoCall == [op |-> "none"]
-LedInit == [live |-> {}, busy |-> {}]
+LedInit == [live |-> {}, busy |-> {}, ck |-> <<>>]
 
 RECURSIVE SeqsOver(_)
 SeqsOver(S) == IF S = {} THEN {<<>>}
@@ -222,9 +222,19 @@ Quiesce == /\ Is("quiesce")
            /\ UNCHANGED <<q, pend, led, viol>>
            /\ l' = l + 1
 
+(* memory sampled during handle churn (fixed set of operating handles): no growth beyond a plateau *)
+Ckpt == /\ Is("ckpt")
+        /\ LET first == led.ck = <<>> IN
+           /\ Flag(IF first \/ (E.blocks <= led.ck[1] + 64 /\ E.heap <= led.ck[2] + 65536) THEN {} ELSE {"C17"})
+           /\ led' = [led EXCEPT !.ck = IF first THEN <<E.blocks, E.heap>> ELSE @]
+        /\ UNCHANGED <<q, pend>>
+        /\ l' = l + 1
+
+HeapDelta == IF "heap_delta" \in DOMAIN E THEN E.heap_delta ELSE 0
+
 End == /\ Is("end")
        /\ Flag((IF E.outcome = "Done" /\ led.live # {} THEN {"C05"} ELSE {}) \cup
-               (IF E.outcome = "Done" /\ E.live # 0 THEN {"C17"} ELSE {}))
+               (IF E.outcome = "Done" /\ (E.live # 0 \/ HeapDelta > 256) THEN {"C17"} ELSE {}))
        /\ UNCHANGED <<q, pend, led>>
        /\ l' = l + 1
 
@@ -250,7 +260,7 @@ Skip == /\ (Is("notify") \/ Is("note"))
         /\ l' = l + 1
 
 Next == \/ Reset \/ Call \/ Ret \/ Born \/ ObsBegin \/ ObsEnd \/ DropEv
-        \/ Stuck \/ Quiesce \/ End \/ MemEv \/ PanicEv \/ SoloEv \/ Skip
+        \/ Stuck \/ Quiesce \/ End \/ Ckpt \/ MemEv \/ PanicEv \/ SoloEv \/ Skip
 
 Spec == Init /\ [][Next]_vars
 
